@@ -558,13 +558,22 @@ def t_bytesio(I, args, kw, node):
     return SObj(None, {"_wrapped": args[0] if args else b""}, I.ctx.fresh_name("BytesIO"))
 
 
+def t_map(I, args, kw, node):
+    """map(f, xs) evaluated eagerly into a list (CPython is lazy: the difference is only *when* an exception of f surfaces; the modelled code consumes
+    the map at once - by unpacking or list() - inside the same try block)"""
+    if len(args) != 2:
+        raise SymError("map with several iterables")
+    I.ctx.notes.add("map(f, xs) evaluated eagerly")
+    return [I.call(args[0], [x], {}, node) for x in I.iter_concrete(args[1], node)]
+
+
 def t_frozenset(I, args, kw, node):
     return frozenset(t_set(I, args, kw, node))
 
 
 import itertools as _itertools
 import io as _io
-TYPES = {_io.BytesIO: t_bytesio, _itertools.islice: t_islice, frozenset: t_frozenset, _array.array: t_array, int: t_int, float: t_float, bool: t_bool, bytes: t_bytes, list: t_list, tuple: t_tuple,
+TYPES = {map: t_map, _io.BytesIO: t_bytesio, _itertools.islice: t_islice, frozenset: t_frozenset, _array.array: t_array, int: t_int, float: t_float, bool: t_bool, bytes: t_bytes, list: t_list, tuple: t_tuple,
          set: t_set, dict: t_dict, str: t_str, range: b_range, enumerate: b_enumerate, zip: b_zip,
          reversed: b_reversed, object: t_object}
 
